@@ -30,8 +30,10 @@ theorem Ext.refl (d : Data) : Ext d d := fun _ _ h => h
 theorem Ext.trans {a b c : Data} (h1 : Ext a b) (h2 : Ext b c) : Ext a c :=
   fun k v h => h2 k v (h1 k v h)
 
-/-- no two rule actions of the knowledge base give one field different values -/
+/-- every action of the knowledge base is a `Set` (`more = []`), and no two of them give one field
+different values -/
 def KbCons (kb : List Rule) : Prop :=
+  (∀ r ∈ kb, r.more = []) ∧
   ∀ r ∈ kb, ∀ r' ∈ kb, ∀ e ∈ r.acts, ∀ e' ∈ r'.acts, e.1 = e'.1 → e.2 = e'.2
 
 /-- a field that some rule assigns is absent from the store or has the value the rules give it -/
@@ -53,7 +55,7 @@ theorem upd_act {kb : List Rule} {d : Data} (hkb : KbCons kb) (hd : Compat kb d)
     · simp only [upd, hk, if_true] at h
       have h1 : e.2 = v := by injection h
       rw [← h1]
-      exact hkb r hr r' hr' e he e' he' hk.symm
+      exact hkb.2 r hr r' hr' e he e' he' hk.symm
     · simp only [upd, hk, if_false] at h
       exact hd r' hr' e' he' v h
 
@@ -159,8 +161,10 @@ theorem Grow.trans {kb : List Rule} {a b c : Store} (h1 : Grow kb a b) (h2 : Gro
   fun h => ⟨(h1 h).1.trans (h2 (h1 h).2).1, (h2 (h1 h).2).2⟩
 
 theorem grow_applyActs {kb : List Rule} (hkb : KbCons kb) {r : Rule} (hr : r ∈ kb) (st : Store) :
-    Grow kb st (applyActs r.acts st) := by
+    Grow kb st (fire r st).2 := by
   intro h
+  rw [fire_plain (hkb.1 r hr)]
+  simp only
   rw [applyActs_data]
   have := applyActsData_grow hkb hr r.acts st.data (fun _ he => he) h
   exact ⟨this.1, this.2.1⟩
@@ -200,12 +204,14 @@ theorem execOut_grow (env : Env) (hkb : KbCons env.kb) (top : Bool) (goal : Atom
   unfold execOut
   simp only
   split
-  · split
-    · intro h
-      have h2 := (hA.trans (grow_applyActs hkb hr stA)) h
-      simpa [data_commit] using h2
-    · trivial
   · trivial
+  · split
+    · split
+      · intro h
+        have h2 := (hA.trans (grow_applyActs hkb hr stA)) h
+        simpa [data_commit] using h2
+      · trivial
+    · trivial
 
 theorem candStep_grow (env : Env) (hkb : KbCons env.kb) (top : Bool) (rec : Rec)
     (hrec : ∀ g c (s : SS), Grow env.kb s.1 (rec g c s).2.1) (goal : Atom) (i : Nat) (found : Bool)
@@ -324,15 +330,17 @@ theorem execOut_holds (env : Env) (top : Bool) (goal : Atom) (found : Bool) (stA
   unfold execOut
   simp only
   split
-  · rename_i hg
-    split
-    · simpa [CandHolds, data_commit] using hg
-    · rename_i hm
-      intro hs
-      cases hs with
-      | inl h1 => simp [h1] at hm
-      | inr h2 => simp [h2] at hm
   · exact hf
+  · split
+    · rename_i hg
+      split
+      · simpa [CandHolds, data_commit] using hg
+      · rename_i hm
+        intro hs
+        cases hs with
+        | inl h1 => simp [h1] at hm
+        | inr h2 => simp [h2] at hm
+    · exact hf
 
 theorem candStep_holds (env : Env) (top : Bool) (rec : Rec) (goal : Atom) (i : Nat) (found : Bool)
     (st : Store) (ns : Nat) (hf : Sure env top → found = false) :
@@ -392,8 +400,10 @@ theorem execOut_found {env : Env} {top : Bool} {goal : Atom} {stA : Store} {r : 
   unfold execOut
   simp only
   split
-  · split <;> simp [CandOut.proves]
   · simp [CandOut.proves]
+  · split
+    · split <;> simp [CandOut.proves]
+    · simp [CandOut.proves]
 
 /-- `found_solution` is never reset -/
 theorem candStep_found {env : Env} {top : Bool} {rec : Rec} {goal : Atom} {i : Nat} {st : Store} {ns : Nat} :
@@ -520,7 +530,7 @@ theorem candStep_complete (env : Env) (hkb : KbCons env.kb) (top : Bool) (d0 : D
     have h3 := (applyActsData_grow hkb hmem r.acts stA.data (fun _ h => h) hcA).2.2 _ (concludes_mem hcon)
     have hg : evalAtom (applyActs r.acts stA).data goal = true := by
       rw [applyActs_data]; exact evalAtom_of_get hgo h3
-    simp only [execOut, hg, if_true]
+    simp only [execOut, fire_plain (hkb.1 r hmem), Bool.not_true, Bool.false_eq_true, if_false, hg, if_true]
     split <;> simp [CandOut.proves]
   have hd : (gstep st .begin).data = st.data := rfl
   simp only [candStep, hk]
@@ -626,14 +636,14 @@ theorem consistent_spec {asg : List (Nat × Val)} (h : consistent asg = true) :
 
 theorem isHorn_spec {kb : List Rule} {before : Facts} (h : isHorn kb before = true) :
     (∀ r ∈ kb, isConj r.cond = true) ∧ KbCons kb ∧ Compat kb (dataOf before) := by
-  simp only [isHorn, Bool.and_eq_true, List.all_eq_true] at h
-  obtain ⟨hc, hcons⟩ := h
+  simp only [isHorn, plainKb, Bool.and_eq_true, List.all_eq_true, List.isEmpty_iff] at h
+  obtain ⟨⟨hc, hpl⟩, hcons⟩ := h
   have hs := consistent_spec hcons
   have hact : ∀ r ∈ kb, ∀ e ∈ r.acts, e ∈ allAssignments kb before := by
     intro r hr e he
     simp only [allAssignments, List.mem_append, List.mem_flatMap]
     exact Or.inr ⟨r, hr, he⟩
-  refine ⟨hc, ?_, ?_⟩
+  refine ⟨hc, ⟨hpl, ?_⟩, ?_⟩
   · intro r hr r' hr' e he e' he' hee
     exact hs e (hact r hr e he) e' (hact r' hr' e' he') hee
   · intro r hr e he v hv
